@@ -39,7 +39,9 @@ def _worker(spec):
         return r
     except Exception as ex:  # noqa: BLE001
         import traceback
-        return dict(task=f"{factory}{args}", obligations=[], error=f"checker fault: {type(ex).__name__}: {ex}",
+        from pyvc.values import Unsupported
+        kind = "unsupported" if isinstance(ex, Unsupported) else f"checker fault: {type(ex).__name__}"
+        return dict(task=f"{factory}{args}", obligations=[], error=f"{kind}: {ex}",
                     trace=traceback.format_exc()[-3000:], functions={}, files={}, paths=0, spec_paths=0,
                     crosscheck=0, havoc=[], shared_writes=[], secs=0, solver={}, meta={})
 
